@@ -17,12 +17,19 @@ MUTS = [
  ("M9 decode_linux: link name not stripped", "fs/_ftp_parse.py", "        name = name.strip()\n", ""),
  ("M10 windows 12h format only", "fs/_ftp_parse.py", 'formats=["%d-%m-%y %I:%M%p", "%d-%m-%y %H:%M"]', 'formats=["%d-%m-%y %I:%M%p"]'),
  ("M11 parse: blank test without strip", "fs/_ftp_parse.py", "if not line.strip():", "if not line:"),
- ("M12 _parse_facts: keys not lower-cased", "fs/ftpfs.py", "key = key.strip().lower()", "key = key.strip()"),
+ ("M12 _parse_facts: keys not lower-cased", "fs/ftpfs.py", "facts[key.strip().lower()] = value.strip()", "facts[key.strip()] = value.strip()"),
  ("M13 _parse_mlsx: sizd preferred over size", "fs/ftpfs.py", 'facts.get("size", facts.get("sizd", "0"))', 'facts.get("sizd", facts.get("size", "0"))'),
  ("M14 _parse_ftp_time: seconds slice", "fs/ftpfs.py", "tm_sec = int(time_text[12:14])", "tm_sec = int(time_text[12:])"),
  ("M15 _parse_features: split on first space of stripped line", "fs/ftpfs.py", 'key, _, value = line[1:].partition(" ")', 'key, _, value = line.strip().partition(" ")'),
  ("M16 _has_drive_letter: any separator", "fs/_url_tools.py", '".:[/\\\\\\\\].*$"', '".:.*$"'),
  ("M17 RE_WINDOWSNT: name lazy", "fs/_ftp_parse.py", "(?P<name>.*)", "(?P<name>.*?)"),
+ ("M19 _parse_mlsx: line.rstrip() (trailing blanks of the name lost)", "fs/ftpfs.py", 'line = line.rstrip("\\r\\n")', "line = line.rstrip()"),
+ ("M20 _parse_facts: cut at the LAST space", "fs/ftpfs.py", 'facts_text, sep, pathname = line.partition(" ")', 'facts_text, sep, pathname = line.rpartition(" ")'),
+ ("M21 _parse_facts: facts part need not end with ';'", "fs/ftpfs.py", 'if not sep or (facts_text and not facts_text.endswith(";")):', "if not sep:"),
+ ("M22 _parse_facts: pathname stripped", "fs/ftpfs.py", 'name = basename(pathname.rstrip("/")) or None', 'name = basename(pathname.strip().rstrip("/")) or None'),
+ ("M23 _parse_facts: name lower-cased", "fs/ftpfs.py", 'name = basename(pathname.rstrip("/")) or None', 'name = basename(pathname.rstrip("/")).lower() or None'),
+ ("M24 _parse_mlsx: every leading space removed", "fs/ftpfs.py", 'cls._parse_facts(line[1:] if line.startswith(" ") else line)', 'cls._parse_facts(line.lstrip(" "))'),
+ ("M25 defect re-introduced: line split at every ';' (ec30a14 reverted)", "fs/ftpfs.py", 'facts_text, sep, pathname = line.partition(" ")\n        if not sep or (facts_text and not facts_text.endswith(";")):\n            facts_text, pathname = "", line  # no facts at all\n        for fact in facts_text.split(";"):\n            key, sep, value = fact.partition("=")\n            if sep:\n                facts[key.strip().lower()] = value.strip()\n        if pathname not in ("", "/"):\n            name = basename(pathname.rstrip("/")) or None\n', 'for fact in line.strip().split(";"):\n            key, sep, value = fact.partition("=")\n            if sep:\n                facts[key.strip().lower()] = value.strip()\n            else:\n                name = basename(fact.rstrip("/").strip())\n'),
  ("M18 RE_LINUX: uid may start with '-'", "fs/_ftp_parse.py", "    ([A-Za-z0-9][A-Za-z0-9\\-\\.\\_\\@]*\\$?)\n    \\s+?\n    ([A-Za-z0-9]", "    ([A-Za-z0-9\\-][A-Za-z0-9\\-\\.\\_\\@]*\\$?)\n    \\s+?\n    ([A-Za-z0-9]"),
 ]
 only = sys.argv[1:]
